@@ -19,6 +19,10 @@ import (
 func main() {
 	dir := os.Args[1]
 	os.MkdirAll(dir, 0o755)
+	if len(os.Args) > 2 && os.Args[2] == "ext" {
+		extension(dir)
+		return
+	}
 	r := rand.New(rand.NewSource(20260927))
 	n := 0
 	emit := func(rc *golden.Recipe, b []byte) {
@@ -126,6 +130,132 @@ func main() {
 		merged(2, []int{900 + r.Intn(500), 700 + r.Intn(500)}, "merged-jumbo", []int{[]int{0, 2, 5, 6}[i], 0}, []uint32{1025, 1024, 1025, 100}[i], true)
 	}
 	fmt.Println("wrote", n, "files to", dir)
+}
+
+// extension writes the second batch of golden files (shapes added after the seeding exercise):
+// stored blocks above 1 MiB, wide schemas, exact boundary cardinalities, arbitrary fixed chunk sizes.
+func extension(dir string) {
+	r := rand.New(rand.NewSource(20260928))
+	n := 200
+	emit := func(rc *golden.Recipe, b []byte) {
+		rc.Name = fmt.Sprintf("g%03d-%s", n, rc.Shape)
+		n++
+		if err := os.WriteFile(filepath.Join(dir, rc.Name+".ice"), b, 0o644); err != nil {
+			panic(err)
+		}
+		if err := golden.WriteGz(filepath.Join(dir, rc.Name+".recipe.json.gz"), rc); err != nil {
+			panic(err)
+		}
+	}
+	built := func(docs []*model.MDoc, mode uint32, shape string) *gen.Seg {
+		sanitizeForPinned(docs)
+		model.ToSegDocs(docs)
+		s, err := gen.BuildSeg(docs, mode)
+		if err != nil {
+			fmt.Println("skip (pinned writer failed):", shape, firstLine(err))
+			return nil
+		}
+		b, _, err := gen.Persist(s.S)
+		if err != nil {
+			return nil
+		}
+		emit(&golden.Recipe{Kind: "built", Mode: mode, Docs: docs, Shape: shape}, b)
+		return s
+	}
+	mergeOf := func(inputs [][]*model.MDoc, modes []uint32, drops []*roaring.Bitmap, outMode uint32, shape string) {
+		rc := &golden.Recipe{Kind: "merged", Mode: outMode, Shape: shape}
+		var segs []*gen.Seg
+		for i, docs := range inputs {
+			sanitizeForPinned(docs)
+			model.ToSegDocs(docs)
+			s, err := gen.BuildSeg(docs, modes[i])
+			if err != nil {
+				fmt.Println("skip (pinned writer failed):", shape, firstLine(err))
+				return
+			}
+			segs = append(segs, s)
+			rc.Inputs = append(rc.Inputs, golden.Input{Mode: modes[i], Docs: docs})
+			if drops[i] == nil {
+				rc.Drops = append(rc.Drops, nil)
+			} else {
+				rc.Drops = append(rc.Drops, append([]uint32{}, drops[i].ToArray()...))
+			}
+		}
+		b, _, _, err := gen.MergeBytes(segs, drops, outMode)
+		if err != nil {
+			fmt.Println("skip (pinned merge failed):", shape, firstLine(err))
+			return
+		}
+		emit(rc, b)
+	}
+	bigSchema := func() *gen.Schema {
+		sch := gen.GenSchema(r)
+		for i := range sch.Fields {
+			sch.Fields[i].StoreP = 10
+		}
+		return sch
+	}
+	for i := 0; i < 3; i++ { // stored blocks above 1 MiB uncompressed
+		built(gen.GenBatch(r, bigSchema(), 130+r.Intn(60), fmt.Sprintf("B%d", i), gen.DocOpts{BigStored: true}), []uint32{1025, 1024, 7}[i], "built-big-stored")
+	}
+	{
+		sch := bigSchema()
+		a := gen.GenBatch(r, sch, 140, "Ba", gen.DocOpts{BigStored: true})
+		b := gen.GenBatch(r, sch, 60, "Bb", gen.DocOpts{BigStored: true})
+		mergeOf([][]*model.MDoc{a, b}, []uint32{1025, 64}, []*roaring.Bitmap{nil, roaring.New()}, 1025, "merged-big-stored")
+	}
+	for i := 0; i < 3; i++ { // field ids above 127
+		sch := gen.WideSchema(r, 150+r.Intn(150))
+		built(gen.WideBatch(r, sch, 80+r.Intn(100), fmt.Sprintf("W%d", i)), []uint32{1025, 3, 64}[i], "built-wide")
+	}
+	{
+		sch := gen.WideSchema(r, 200)
+		a := gen.WideBatch(r, &gen.Schema{IDP: 9, Fields: sch.Fields[20:]}, 60, "Wa")
+		b := gen.WideBatch(r, &gen.Schema{IDP: 9, Fields: sch.Fields[:170]}, 50, "Wb")
+		mergeOf([][]*model.MDoc{a, b}, []uint32{1025, 5}, []*roaring.Bitmap{gen.Drops(r, 60, 2), nil}, 1025, "merged-wide")
+	}
+	for i, nd := range []int{2200, 4200} { // exact cardinalities 1023..4096
+		docs, _ := gen.JumboBatch(r, nd, fmt.Sprintf("X%d", i), true)
+		gen.AddExactTerms(r, docs, "exact", gen.ExactSpec(nd))
+		built(docs, []uint32{1025, 1025}[i], "built-exact-cardinalities")
+	}
+	{ // merged terms of exactly 1024 / 2048 documents (no deletions)
+		sizes := []int{900, 1300}
+		ex := gen.SplitExact(r, sizes)
+		var ins [][]*model.MDoc
+		for i, sz := range sizes {
+			docs, _ := gen.JumboBatch(r, sz, fmt.Sprintf("Y%d", i), true)
+			gen.AddExactTerms(r, docs, "exact", ex[i])
+			ins = append(ins, docs)
+		}
+		mergeOf(ins, []uint32{1025, 1024}, []*roaring.Bitmap{nil, nil}, 1025, "merged-exact-cardinalities")
+	}
+	for i := 0; i < 6; i++ { // arbitrary fixed chunk sizes, varint-boundary positions and frequencies
+		sch := gen.GenSchema(r)
+		nd := []int{9, 40, 120, 257, 300, 64}[i]
+		built(gen.GenBatch(r, sch, nd, fmt.Sprintf("M%d", i), gen.DocOpts{}), uint32(1+r.Intn(1024)), "built-any-mode")
+	}
+	fmt.Println("extension wrote", n-200, "files to", dir)
+}
+
+// sanitizeForPinned avoids the one input shape on which the pinned WRITER is known to be wrong
+// (a term occurring again in the same field of a document with locations naming another field):
+// later occurrences get blank location field names, so the corpus is not thinned out by that defect.
+func sanitizeForPinned(docs []*model.MDoc) {
+	for _, d := range docs {
+		seen := map[string]bool{}
+		for _, f := range d.Fields {
+			for _, t := range f.Terms {
+				k := f.N + "\x00" + string(t.T)
+				if seen[k] {
+					for _, l := range t.L {
+						l.F = ""
+					}
+				}
+				seen[k] = true
+			}
+		}
+	}
 }
 
 func firstLine(err error) string {
